@@ -23,14 +23,19 @@
 EXTENDS Secrets, Integers, Json
 
 CONSTANTS Slates, Kinds, UseCancel, TestRng,
+          UseSecond,    \* a third wallet w3 answers the same S1 / I1 as well (a second, different, valid
+                        \* reply) and the finalizer is handed that reply AFTER it has finalized the first
           ApiModes      \* subset of BOOLEAN: TRUE = the slate's calls go through grin_wallet_api::{Owner, Foreign}
 
-VARIABLES st, flow, seenN, seenX, bad, hist
-vars == <<st, flow, seenN, seenX, bad, hist>>
-View == <<st, flow, seenN, seenX, bad>>
+VARIABLES st, flow, seenN, seenX, sctx, bad, hist
+vars == <<st, flow, seenN, seenX, sctx, bad, hist>>
+View == <<st, flow, seenN, seenX, sctx, bad>>
 
-WS == {"w1", "w2"}
-NoFlow == [kind |-> "none", stage |-> "new", locked |-> FALSE, nrep |-> 0, rcan |-> FALSE, api |-> FALSE]
+WS == {"w1", "w2", "w3"}
+\* r1: index of the reply the flow finalizes first; second: w3's reply exists (its index is nrep);
+\* again: the finalizer has been handed w3's reply after finalizing
+NoFlow == [kind |-> "none", stage |-> "new", locked |-> FALSE, nrep |-> 0, rcan |-> FALSE, api |-> FALSE,
+           r1 |-> 0, second |-> FALSE, again |-> FALSE]
 
 \* Context::new(secp, parent, use_test_rng, is_initiator)
 AtomK(sl, role, g) == IF TestRng THEN "test.k." \o role ELSE sl \o "." \o role \o ToString(g) \o ".k"
@@ -39,20 +44,28 @@ AtomN(sl, role, g) == IF TestRng THEN "test.n" ELSE sl \o "." \o role \o ToStrin
 Recipient(kind) == IF kind = "self" THEN "w1" ELSE "w2"
 Issuer(kind)    == IF kind = "selfinv" THEN "w1" ELSE "w2"
 ReplyParts(sl, g) == {Part(AtomN(sl, "rsp", g), AtomK(sl, "rsp", g), TRUE)}
+IniParts(sl) == {Part(AtomN(sl, "ini", 0), AtomK(sl, "ini", 0), FALSE)}
+Finalizer(kind) == IF kind = "inv" THEN "w2" ELSE "w1"
 
 Init == /\ st = [ctx |-> [w \in WS |-> <<>>]]
         /\ flow = [sl \in Slates |-> NoFlow]
-        /\ seenN = <<>> /\ seenX = <<>> /\ bad = {} /\ hist = <<>>
+        /\ seenN = <<>> /\ seenX = <<>> /\ sctx = <<>> /\ bad = {} /\ hist = <<>>
 
-\* one API call: new secrets state r, events evs appended, flow of sl updated
-Do(sl, r, evs, f2) ==
+\* one API call: new secrets state r, events evs appended, flow of sl updated;
+\* all: the participant entries of the transaction a signature in r.out commits to;
+\* consumed: FALSE iff the call is a successful finalize that leaves its context behind
+Do(sl, r, evs, f2) == DoS(sl, r, evs, f2, {}, TRUE)
+DoS(sl, r, evs, f2, all, consumed) ==
   /\ st' = r.st
+  /\ sctx' = SctxAfter(sctx, r.out, all)
   /\ flow' = [flow EXCEPT ![sl] = f2]
   /\ seenN' = SeenAfter(seenN, sl, {p.n : p \in r.out})
   /\ seenX' = SeenAfter(seenX, sl, {p.x : p \in r.out})
   /\ bad' = bad \cup (IF FreshNonces(seenN, seenX, sl, r.out) THEN {} ELSE {"FreshNonces"})
                  \cup (IF NoClearSecretOnWire(Msg(r.out), PendingSecrets(st) \cup PendingSecrets(r.st)) THEN {}
                        ELSE {"NoClearSecretOnWire"})
+                 \cup (IF SignsOnce(sctx, r.out, all) THEN {} ELSE {"NonceSignsOnce"})
+                 \cup (IF consumed THEN {} ELSE {"ContextConsumed"})
   /\ hist' = hist \o evs
 
 AStart(sl) ==
@@ -68,36 +81,56 @@ AStart(sl) ==
 AReceive(sl) ==
   LET f == flow[sl]  g == f.nrep + 1 IN
   /\ f.kind \in {"send", "late", "self"} /\ f.stage = "S1"
-  /\ Do(sl, Receive(st, Recipient(f.kind), sl, AtomK(sl, "rsp", g), AtomN(sl, "rsp", g)),
-        <<[ev |-> "receive", w |-> Recipient(f.kind), sl |-> sl, api |-> f.api]>>,
-        [f EXCEPT !.stage = "S2", !.nrep = g])
+  /\ LET r == Receive(st, Recipient(f.kind), sl, AtomK(sl, "rsp", g), AtomN(sl, "rsp", g)) IN
+     DoS(sl, r, <<[ev |-> "receive", w |-> Recipient(f.kind), sl |-> sl, api |-> f.api]>>,
+         [f EXCEPT !.stage = "S2", !.nrep = g, !.r1 = g], IniParts(sl) \cup r.out, TRUE)
 ARCancel(sl) ==
   LET f == flow[sl] IN
-  /\ UseCancel /\ f.kind \in {"send", "late"} /\ f.stage = "S2" /\ ~f.rcan
+  /\ UseCancel /\ f.kind \in {"send", "late"} /\ f.stage = "S2" /\ ~f.rcan /\ ~f.second
   /\ Do(sl, Unchanged(st), <<[ev |-> "cancel", w |-> "w2", by |-> sl, id |-> -1]>>, [f EXCEPT !.stage = "S1", !.rcan = TRUE])
 AProcess(sl) ==
   LET f == flow[sl] IN
   /\ f.stage = "I1"
-  /\ Do(sl, ProcessInvoice(st, "w1", sl, AtomK(sl, "rsp", 1), AtomN(sl, "rsp", 1)),
-        <<[ev |-> "process_invoice", w |-> "w1", sl |-> sl, api |-> f.api]>>, [f EXCEPT !.stage = "I2", !.nrep = 1])
+  /\ LET r == ProcessInvoice(st, "w1", sl, AtomK(sl, "rsp", 1), AtomN(sl, "rsp", 1)) IN
+     DoS(sl, r, <<[ev |-> "process_invoice", w |-> "w1", sl |-> sl, api |-> f.api]>>,
+         [f EXCEPT !.stage = "I2", !.nrep = 1, !.r1 = 1], IniParts(sl) \cup r.out, TRUE)
+\* a second, different, valid reply to the same S1 / I1 from a third wallet
+ASecond(sl) ==
+  LET f == flow[sl]  g == f.nrep + 1 IN
+  /\ UseSecond /\ f.kind \in {"send", "late", "inv"} /\ ~f.second /\ ~f.rcan
+  /\ f.stage \in {"S2", "S3", "I2", "I3"}
+  /\ LET r == IF f.kind = "inv" THEN ProcessInvoice(st, "w3", sl, AtomK(sl, "rsp", g), AtomN(sl, "rsp", g))
+               ELSE Receive(st, "w3", sl, AtomK(sl, "rsp", g), AtomN(sl, "rsp", g)) IN
+     DoS(sl, r, <<[ev |-> (IF f.kind = "inv" THEN "process_invoice" ELSE "receive"), w |-> "w3", sl |-> sl, api |-> f.api]>>,
+         [f EXCEPT !.nrep = g, !.second = TRUE], IniParts(sl) \cup r.out, TRUE)
 ALock(sl) ==
   LET f == flow[sl] IN
   /\ ~f.locked
   /\ \/ f.kind \in {"send", "self"} /\ f.stage \in {"S1", "S2"}
      \/ f.kind \in {"inv", "selfinv"} /\ f.stage = "I2"
   /\ Do(sl, Unchanged(st),
-        <<[ev |-> "lock", w |-> "w1", sl |-> sl, stage |-> (IF f.stage = "I2" THEN "I2" ELSE "S1"), rep |-> 0, api |-> f.api]>>,
+        <<[ev |-> "lock", w |-> "w1", sl |-> sl, stage |-> (IF f.stage = "I2" THEN "I2" ELSE "S1"),
+          rep |-> (IF f.stage = "I2" THEN f.r1 ELSE 0), api |-> f.api]>>,
         [f EXCEPT !.locked = TRUE])
 AFinalize(sl) ==
   LET f == flow[sl] IN
   \/ /\ f.stage = "S2" /\ (f.locked \/ f.kind = "late")
-     /\ Do(sl, Finalize(st, "w1", sl, ReplyParts(sl, f.nrep)),
-           <<[ev |-> "finalize", w |-> "w1", sl |-> sl, stage |-> "S2", rep |-> 0, foreign |-> FALSE, api |-> f.api]>>,
-           [f EXCEPT !.stage = "S3"])
+     /\ LET r == Finalize(st, "w1", sl, ReplyParts(sl, f.r1)) IN
+        DoS(sl, r, <<[ev |-> "finalize", w |-> "w1", sl |-> sl, stage |-> "S2", rep |-> f.r1, foreign |-> FALSE, api |-> f.api]>>,
+            [f EXCEPT !.stage = "S3"], r.out, ContextConsumed(r.st, "w1", sl))
   \/ /\ f.stage = "I2" /\ f.locked
-     /\ Do(sl, FinalizeInvoice(st, Issuer(f.kind), sl, ReplyParts(sl, 1)),
-           <<[ev |-> "finalize", w |-> Issuer(f.kind), sl |-> sl, stage |-> "I2", rep |-> 0, foreign |-> TRUE, api |-> f.api]>>,
-           [f EXCEPT !.stage = "I3"])
+     /\ LET r == FinalizeInvoice(st, Issuer(f.kind), sl, ReplyParts(sl, f.r1)) IN
+        DoS(sl, r, <<[ev |-> "finalize", w |-> Issuer(f.kind), sl |-> sl, stage |-> "I2", rep |-> f.r1, foreign |-> TRUE, api |-> f.api]>>,
+            [f EXCEPT !.stage = "I3"], r.out, ContextConsumed(r.st, Issuer(f.kind), sl))
+\* the finalizer is handed the OTHER valid reply after it has finalized: no context, refused
+AFinalizeAgain(sl) ==
+  LET f == flow[sl]  w == Finalizer(f.kind) IN
+  /\ UseSecond /\ f.second /\ ~f.again /\ f.stage \in {"S3", "I3", "P", "M"}
+  /\ LET ok == HasCtx(st, w, sl)
+         r == IF ok THEN Finalize(st, w, sl, ReplyParts(sl, f.nrep)) ELSE Refused(st) IN
+     DoS(sl, r, <<[ev |-> "finalize", w |-> w, sl |-> sl, stage |-> (IF f.kind = "inv" THEN "I2" ELSE "S2"), rep |-> f.nrep,
+                  foreign |-> (f.kind = "inv"), api |-> f.api, again |-> TRUE]>>,
+         [f EXCEPT !.again = TRUE], r.out, ok => ContextConsumed(r.st, w, sl))
 ASCancel(sl) ==
   LET f == flow[sl] IN
   /\ UseCancel /\ f.locked /\ f.kind \in {"send", "inv"} /\ f.stage \in {"S1", "S2", "I2"}
@@ -110,8 +143,8 @@ AMine(sl) ==
   /\ Do(sl, Unchanged(st), <<[ev |-> "mine", txs |-> <<sl>>], [ev |-> "refresh", w |-> "w1"], [ev |-> "refresh", w |-> "w2"]>>,
         [flow[sl] EXCEPT !.stage = "M"])
 
-Next == \E sl \in Slates : AStart(sl) \/ AReceive(sl) \/ ARCancel(sl) \/ AProcess(sl) \/ ALock(sl) \/ AFinalize(sl)
-                           \/ ASCancel(sl) \/ APost(sl) \/ AMine(sl)
+Next == \E sl \in Slates : AStart(sl) \/ AReceive(sl) \/ ARCancel(sl) \/ AProcess(sl) \/ ASecond(sl) \/ ALock(sl) \/ AFinalize(sl)
+                           \/ AFinalizeAgain(sl) \/ ASCancel(sl) \/ APost(sl) \/ AMine(sl)
 Spec == Init /\ [][Next]_vars
 
 \* ---------------------------------------------------------------- checks
@@ -126,6 +159,8 @@ Inv_AtRest == IF NoClearSecretAtRest(st) THEN TRUE ELSE PrintT(<<"CEX", ToJson([
 Inv_AtRestStrict == NoClearSecretAtRest(st)
 Inv_Fresh == IF "FreshNonces" \notin bad THEN TRUE ELSE Cex("FreshNonces")
 Inv_Wire  == IF "NoClearSecretOnWire" \notin bad THEN TRUE ELSE Cex("NoClearSecretOnWire")
+Inv_SignsOnce == IF "NonceSignsOnce" \notin bad THEN TRUE ELSE Cex("NonceSignsOnce")
+Inv_Consumed  == IF "ContextConsumed" \notin bad THEN TRUE ELSE Cex("ContextConsumed")
 TypeOK == \A w \in WS : \A sl \in DOMAIN st.ctx[w] : DOMAIN st.ctx[w][sl] = Fields
 
 \* GEN: the history of every transition (the runner keeps a prefix-maximal subset)
